@@ -23,6 +23,14 @@ in the file), (ii) the spelling of the top-level file: URL (pathname2url form,
 verbatim path after 'file://', single-slash 'file:/...', everything
 percent-encoded with lower-case hex digits), (iii) directory name and file stem
 varying independently (every ordered pair of different names).
+
+Wave 3, part (d): reference GRAPHS (vz/ref/refgraph.py).  Parts (b) / (b2) / (c) load
+chains whose hops have one kind and whose files all have different names, so every
+reference text and every file name occurs once per load.  Part (d) enumerates loads
+with TWO reference sites in two resources that read the same text and name two
+different files (fork, chain), one file referred to twice (diamond, %include), files
+of one name in several directories, and every mix of src / extends along the hops,
+for every name x cwd x way; oracle = the result the graph was built to give.
 """
 import io
 import itertools
@@ -33,6 +41,7 @@ import tempfile
 from vz import core
 from vz.ref import urls as R
 from vz.ref import refspell as S
+from vz.ref import refgraph as G
 
 PROP = "C18"
 
@@ -796,6 +805,178 @@ def shard_extends_multi(shard, acc):
     return acc
 
 
+# ---------------------------------------------------------------------------
+# (d) wave 3: reference GRAPHS (vz/ref/refgraph.py) - two reference sites of one load that
+#     read the same text and name different files, files of one name in several directories,
+#     hops of mixed kinds
+
+D_SHARDS_PER_NAME = 3
+
+
+def graph_reftext(tree, case, mode):
+    return lambda e: tree.ref(e[2], case.nodes[e[3]][1], mode=mode)
+
+
+def graph_write(tree, case, mode):
+    """Every (depth, extension) slot of the extensions in use: the node placed there, or a decoy."""
+    reftext = graph_reftext(tree, case, mode)
+    placed = {slot: nid for nid, slot in case.nodes.items()}
+    for ext in case.exts():
+        for depth in range(MAXDEPTH + 1):
+            nid = placed.get((depth, ext))
+            text = G.document(case, nid, reftext) if nid else G.decoy_document(case, ext, depth)
+            with open(tree.path(ext, depth), "w", encoding="utf-8") as f:
+                f.write(text)
+
+
+def graph_load(case, way, top, cwd, cfg_schema, scratch):
+    """-> (status, observation, url of the schema)"""
+    import ZConfig
+    ref = naming(way, top, cwd)
+    try:
+        if case.config:
+            if way.startswith("fileobj"):
+                with open(ref, encoding="utf-8") as f:
+                    conf, _h = ZConfig.loadConfigFile(cfg_schema, f)
+            else:
+                conf, _h = ZConfig.loadConfig(cfg_schema, ref)
+            return ("ok", top_tree(conf), None)
+        if way.startswith("fileobj"):
+            with open(ref, encoding="utf-8") as f:
+                schema = ZConfig.loadSchemaFile(f)
+        else:
+            schema = ZConfig.loadSchema(ref)
+        return ("ok", schema_digest(schema), schema.url)
+    except ZConfig.ConfigurationError as e:
+        return ("config-error", dict(err_desc(e), message=str(e).replace(scratch, "<scratch>")[:160]), None)
+    except Exception as e:
+        return ("internal", core.exc_desc(e), None)
+
+
+def graph_modes(tree, case, modes):
+    seen, plan = set(), []
+    for mode in modes:
+        rt = graph_reftext(tree, case, mode)
+        texts = tuple(rt(e) for e in case.edges)
+        if texts not in seen:
+            seen.add(texts)
+            plan.append(mode)
+    return plan
+
+
+def check_graph(tree, case, cwds, acc, cfg_schema, modes=(BASE_MODE,), ways=WAYS):
+    """One reference graph with one name: per distinct spelling the files are written once and
+    loaded from every cwd in every way; every load must give what the graph was built to give
+    (vz.ref.refgraph.expected) and the ways must agree."""
+    name = tree.name
+    nontrivial = quotable(name) or quotable(tree.dname)
+    feature = "quoted-char" if nontrivial else "plain"
+    collide = bool(case.same_text_sites())
+    want = G.expected(case)
+    if case.config:
+        want = {"k": want, "ss": []}
+    top = tree.path(*reversed(case.nodes["top"]))
+    old = os.getcwd()
+    scratch = os.path.dirname(tree.T)
+    try:
+        for cwdk in cwds:
+            case0 = dict(case.key(), part="d", name=name, cwd=cwdk)
+            if tree.dname != name:
+                case0["dname"] = tree.dname
+            acc.current = case0
+            acc.ev()
+            acc.states += 1
+            acc.extra["d:states"] += 1
+            if nontrivial:
+                acc.nt()
+            cwd = tree.cwd(cwdk)
+            for mode in graph_modes(tree, case, modes):
+                acc.extra["d:spelling:" + mode] += 1
+                graph_write(tree, case, mode)
+                os.chdir(cwd)
+                results = {}
+                for way in ways:
+                    results[way] = graph_load(case, way, top, cwd, cfg_schema, scratch)
+                    acc.transitions += 1
+                    acc.traces += 1
+                os.chdir(old)
+                bad = {}
+                first = results[ways[0]]
+                for way in ways:
+                    st, val, url = results[way]
+                    acc.cls("d:%s:%s:%s" % (case.shape, case.profile, st if st != "config-error" else val["class"]))
+                    if st == "internal":
+                        bad.setdefault("internal-error", []).append((way, val, "result or ConfigurationError"))
+                        continue
+                    if st != "ok":
+                        bad.setdefault("load-fails", []).append((way, val, want))
+                        continue
+                    got = val if case.config else defaults_projection(val)
+                    if got != want:
+                        bad.setdefault("wrong-resource", []).append((way, got, want))
+                    elif first[0] == "ok" and val != first[1]:
+                        bad.setdefault("entry-points-differ", []).append((way, val, first[1]))
+                    if not case.config:
+                        v = judge_url(url, top, way)
+                        if v:
+                            bad.setdefault("schema-url", []).append((way, url, "'file:///' URL of the top file: " + v))
+                    if got == want:
+                        acc.extra["d:ok:shape:" + case.shape] += 1
+                        acc.extra["d:ok:profile:" + case.profile] += 1
+                        acc.extra["d:ok:way:" + way] += 1
+                        if collide:
+                            acc.extra["d:ok:same-text-in-two-resources-names-two-files"] += 1
+                        if case.naming == "shared":
+                            acc.extra["d:ok:files-of-one-name-in-several-directories"] += 1
+                        if case.mixed_kinds():
+                            acc.extra["d:ok:hops-of-mixed-kinds"] += 1
+                        if case.shape == "diamond":
+                            acc.extra["d:ok:one-file-included-twice"] += 1
+                acc.clause("d:graph-gives-the-constructed-result")
+                for kind_, items in sorted(bad.items()):
+                    failing = sorted({w for w, _o, _e in items})
+                    if set(failing) == set(ways):
+                        wcls = "all"
+                    elif all(w.startswith("fileobj") for w in failing):
+                        wcls = "fileobj-only"
+                    elif not any(w.startswith("fileobj") for w in failing):
+                        wcls = "named-only:" + "+".join(failing)
+                    else:
+                        wcls = "mixed:" + "+".join(failing)
+                    way, observed, expected = items[0]
+                    rt = graph_reftext(tree, case, mode)
+                    acc.violation(kind_, dict(case0, way=way, failing_ways=failing, spelling=mode,
+                                              files={n: "depth %d: %s.%s" % (d, name, x)
+                                                     for n, (d, x) in sorted(case.nodes.items())},
+                                              references=["%s -%s-> %s: %s" % (e[0], e[1], e[3], rt(e))
+                                                          for e in case.edges]),
+                                  observed, expected,
+                                  tags={"kind": kind_, "part": "d", "shape": case.shape, "naming": case.naming,
+                                        "profile": case.profile, "ways": wcls, "name-feature": feature,
+                                        "spelling": mode})
+            acc.sample(lambda: dict(case0, files={n: list(v) for n, v in case.nodes.items()},
+                                    references=[list(e) + [graph_reftext(tree, case, BASE_MODE)(e)]
+                                                for e in case.edges]))
+    finally:
+        os.chdir(old)
+
+
+def shard_graphs(shard, acc):
+    """shard = (root, idx, name, part index, opts); the cases with index = part (mod D_SHARDS_PER_NAME)."""
+    root, idx, name, part, opts = shard
+    base = os.path.join(root, "%s%d" % (opts.get("prefix", "d"), idx))
+    tree = Tree(base, name, opts.get("dname"))
+    cfg_schema = config_schema()
+    try:
+        for i, case in enumerate(G.cases()):
+            if i % D_SHARDS_PER_NAME == part:
+                check_graph(tree, case, opts.get("cwds") or CWDS, acc, cfg_schema,
+                            modes=opts.get("modes") or (BASE_MODE,))
+    finally:
+        shutil.rmtree(base, ignore_errors=True)
+    return acc
+
+
 def run(tier):
     n = 6 if tier == "quick" else 7
     m = 4 if tier == "quick" else 5          # 'file:' + every string of length <= m
@@ -812,6 +993,17 @@ def run(tier):
         pair_lay = lay
         pair_cwds = CWDS
         pair_variants = ("good", "frag-ref")
+    # (d) reference graphs
+    gcases = G.cases()
+    gnames = names(1)
+    if tier == "quick":
+        g_modes = (BASE_MODE,)
+        g_pairs = []
+    else:
+        g_modes = tuple(MODES)
+        g_pairs = pairs
+    g_pair_cwds = ["root"]
+    g_same_text = sum(1 for c in gcases if c.same_text_sites())
     run = core.Run(
         PROP, tier, "exploration",
         rule="(a) every string of length <= %d over %r, plus 'file:' + every string of length <= %d "
@@ -835,12 +1027,28 @@ def run(tier):
              "vary independently: every ordered pair of different 1-character names (%d pairs) x kinds x %d layouts "
              "(%s) x cwd in %r x every distinct spelling x all ways, variants %r.  (c) one schema extending TWO base "
              "schemas in different directories (all 6 ordered pairs of same / sub / parent) with decoys of the same "
-             "file names elsewhere, every 1-character name, 3 working directories, the same ways of naming the top.  states = (kind, layout, "
-             "name(s), cwd) tuples, transitions = loads through the public API."
+             "file names elsewhere, every 1-character name, 3 working directories, the same ways of naming the top.  "
+             "(d) reference GRAPHS (vz/ref/refgraph.py), i.e. loads with more than one reference site: all %d placed graphs "
+             "of the shapes fork (top -> mid by hop h1 in sub / parent, top -> its leaf and mid -> its leaf by one hop h2 in "
+             "same / sub / parent: the two leaf references are the SAME TEXT in two resources of different directories and "
+             "name two different files; file names per role, or mid and both leaves sharing one file name in three "
+             "directories; top refers to its leaf first or to mid first), diamond (h1 = same: one file included twice, "
+             "by the same text from two resources; %%include only) and chain (top -> mid -> leaf, all three files of ONE "
+             "name, both hops sub or both parent, hence both references the same text), top at depth 0..3, all depths 0..3, "
+             "the hops all %%include or EVERY assignment of src / extends to the edges (mixed kinds: 8 per fork, 4 per chain); "
+             "%d of the graphs have two reference sites with equal text and different targets; decoys at every other "
+             "(depth, file name) slot; x %d names of length 1 x cwd in %r x the ways above x the spellings %r that give "
+             "different texts%s; every load must give the result the graph was built to give (%%include = textual inclusion "
+             "in pre-order; a schema has its own and its bases' keys and the section types of everything it extends or "
+             "imports, transitively) and the ways must agree.  states = (kind, layout, name(s), cwd) and (graph, name(s), cwd) "
+             "tuples, transitions = loads through the public API."
              % (n, "".join(ALPHABET), m, SCHEME_CASES, BASES, KINDS, len(nm), namelen,
                 "".join(NAME_ALPHABET), len(lay), CWDS, WAYS, MODES, list(EXTRA_MODE_VARIANTS),
                 len(pairs), len(pair_lay),
-                "top at depth %d" % PAIR_TOP_DEPTH if tier == "quick" else "all", pair_cwds, list(pair_variants)),
+                "top at depth %d" % PAIR_TOP_DEPTH if tier == "quick" else "all", pair_cwds, list(pair_variants),
+                len(gcases), g_same_text, len(gnames), CWDS, list(g_modes),
+                "; (d2) the same graphs with directory name != file stem: %d ordered pairs of 1-character names, "
+                "first spelling, cwd in %r" % (len(g_pairs), g_pair_cwds) if g_pairs else ""),
         bounds={"a_alphabet": ALPHABET, "a_max_len": n, "a_bases": BASES, "a_scheme_spellings": SCHEME_CASES, "a_file_prefixed_max_len": m,
                 "b_name_alphabet": NAME_ALPHABET, "b_name_max_len": namelen, "b_names": len(nm),
                 "b_layouts": len(lay), "b_kinds": KINDS, "b_cwds": CWDS, "b_ways": WAYS,
@@ -848,7 +1056,15 @@ def run(tier):
                 "b_reference_spellings": MODES, "b_variants_first_spelling": list(VARIANTS),
                 "b_variants_other_spellings": list(EXTRA_MODE_VARIANTS),
                 "b2_name_pairs": len(pairs), "b2_layouts": len(pair_lay), "b2_cwds": pair_cwds,
-                "b2_variants": list(pair_variants), "b2_reference_spellings": MODES},
+                "b2_variants": list(pair_variants), "b2_reference_spellings": MODES,
+                "d_graphs": len(gcases),
+                "d_graphs_by_shape": {sh: sum(1 for c in gcases if c.shape == sh) for sh in ("fork", "diamond", "chain")},
+                "d_graphs_with_equal_text_naming_two_files": g_same_text,
+                "d_kind_profiles": sorted({c.profile for c in gcases}),
+                "d_names": len(gnames), "d_cwds": CWDS, "d_ways": WAYS, "d_reference_spellings": list(g_modes),
+                "d2_name_pairs": len(g_pairs), "d2_cwds": g_pair_cwds if g_pairs else [],
+                "d_not_explored": "two SIBLING resources with equal reference text (top -> m1 -> l1, top -> m2 -> l2); "
+                                  "graphs of more than 4 files; names longer than 1 character in graphs"},
         assumptions=[
             "POSIX file system with UTF-8 file names (the Windows drive-letter rule is exercised through "
             "isPath/normalizeURL only)",
@@ -881,6 +1097,12 @@ def run(tier):
                   run.acc)
         cnames = names(1)
         core.pmap(shard_extends_multi, [(root, i, nme) for i, nme in enumerate(cnames)], run.acc)
+        bb_states = run.acc.states
+        gshards = [(root, i * D_SHARDS_PER_NAME + j, nme, j, {"modes": g_modes})
+                   for i, nme in enumerate(gnames) for j in range(D_SHARDS_PER_NAME)]
+        gshards += [(root, i * D_SHARDS_PER_NAME + j, f, j, {"prefix": "e", "dname": d, "cwds": g_pair_cwds})
+                    for i, (d, f) in enumerate(g_pairs) for j in range(D_SHARDS_PER_NAME)]
+        core.pmap(shard_graphs, gshards, run.acc)
     finally:
         shutil.rmtree(root, ignore_errors=True)
     acc = run.acc
@@ -892,8 +1114,31 @@ def run(tier):
                 "part (b) explored %d states, expected %d" % (
                     b_states, len(nm) * len(lay) * len(KINDS) * len(CWDS)))
     b2_expected = len(pairs) * len(pair_lay) * len(KINDS) * len(pair_cwds)
-    run.require(acc.states - b_states == b2_expected,
-                "part (b2) explored %d states, expected %d" % (acc.states - b_states, b2_expected))
+    run.require(bb_states - b_states == b2_expected,
+                "part (b2) explored %d states, expected %d" % (bb_states - b_states, b2_expected))
+    # wave-3 axis really exercised
+    d_expected = len(gcases) * (len(gnames) * len(CWDS) + len(g_pairs) * len(g_pair_cwds))
+    X = acc.extra
+    run.require(acc.states - bb_states == d_expected and X.get("d:states", 0) == d_expected,
+                "part (d) explored %d states, expected %d" % (acc.states - bb_states, d_expected))
+    run.require(X.get("d:spelling:" + BASE_MODE, 0) == d_expected,
+                "part (d): the first spelling ran in %d of %d states" % (X.get("d:spelling:" + BASE_MODE, 0), d_expected))
+    run.require(acc.clauses.get("d:graph-gives-the-constructed-result", 0) >= d_expected,
+                "part (d): the graph clause decided only %d cases" % acc.clauses.get("d:graph-gives-the-constructed-result", 0))
+    for k, least in (("d:ok:same-text-in-two-resources-names-two-files", 50000),
+                     ("d:ok:files-of-one-name-in-several-directories", 10000),
+                     ("d:ok:hops-of-mixed-kinds", 20000), ("d:ok:one-file-included-twice", 3000),
+                     ("d:ok:shape:fork", 50000), ("d:ok:shape:chain", 3000), ("d:ok:shape:diamond", 3000)):
+        run.require(X.get(k, 0) >= least, "class %s: only %d loads gave the constructed result" % (k, X.get(k, 0)))
+    for prof in sorted({c.profile for c in gcases}):
+        run.require(X.get("d:ok:profile:" + prof, 0) >= 1000,
+                    "part (d): kinds %s: only %d loads gave the constructed result" % (prof, X.get("d:ok:profile:" + prof, 0)))
+    for way in WAYS:
+        run.require(X.get("d:ok:way:" + way, 0) >= d_expected,
+                    "part (d): way %s: only %d loads gave the constructed result" % (way, X.get("d:ok:way:" + way, 0)))
+    for mode in g_modes[1:]:
+        run.require(X.get("d:spelling:" + mode, 0) >= 100,
+                    "part (d): spelling %s gave a distinct text in only %d states" % (mode, X.get("d:spelling:" + mode, 0)))
     for k in ("url:scheme", "path:drive-letter", "path:colon-but-no-scheme", "normalize:single-slash",
               "normalize:already-normal", "defrag:split-then-normalize", "join:rfc3986-5.2",
               "normalizeURL:url-with-fragment", "normalizeURL:path:drive-letter",
@@ -924,7 +1169,9 @@ def run(tier):
         run.require(acc.extra.get(k, 0) >= 500, "class %s: only %d successful loads" % (k, acc.extra.get(k, 0)))
     run.notes["part_a_strings"] = a_ev
     run.notes["part_b_states"] = b_states
-    run.notes["part_b2_states"] = acc.states - b_states
+    run.notes["part_b2_states"] = bb_states - b_states
+    run.notes["part_d_states"] = acc.states - bb_states
+    run.notes["part_d_spelled_cases"] = {m_: X.get("d:spelling:" + m_, 0) for m_ in g_modes}
     run.notes["part_b_loads"] = acc.transitions
     run.notes["part_b_spelled_cases"] = {m_: acc.extra.get("b:spelling:" + m_, 0) for m_ in MODES}
     return run
@@ -947,6 +1194,11 @@ def replay(body):
                     os.chdir(old)
             elif "base1" in case:
                 shard_extends_multi((root, i, case["name"]), acc)
+            elif case.get("part") == "d":
+                base = os.path.join(root, "r%d" % i)
+                tree = Tree(base, case["name"], case.get("dname"))
+                check_graph(tree, G.from_key(case), [case["cwd"]], acc, config_schema(),
+                            modes=(case.get("spelling") or BASE_MODE,))
             else:
                 base = os.path.join(root, "r%d" % i)
                 tree = Tree(base, case["name"], case.get("dname"))
